@@ -37,7 +37,7 @@ typedef struct { char * p; size_t len; } doc_t;
 static doc_t * docs;
 static uint32_t ndocs;
 
-typedef struct { short fmt; unsigned long ext; short lang; int compare; } combo_t;
+typedef struct { short fmt; unsigned long ext; short lang; int compare; int pre; } combo_t;       /* pre: 1 accept, 2 reject text-level pass first (as the CLI does for -a/-r), 3 metadata keys */
 #define X (EXT_SMART | EXT_NOTES | EXT_CRITIC)
 static combo_t combos[] = {
 	{FORMAT_HTML, X, 0, 1}, {FORMAT_HTML, X | EXT_OBFUSCATE, 0, 1}, {FORMAT_HTML, X | EXT_COMPLETE, 2, 1},
@@ -46,7 +46,11 @@ static combo_t combos[] = {
 	{FORMAT_FODT, X, 0, 1}, {FORMAT_OPML, X, 0, 1}, {FORMAT_MMD, X, 0, 1}, {FORMAT_HTML, X | EXT_SNIPPET | EXT_CRITIC_ACCEPT, 5, 1},
 	{FORMAT_HTML, X | EXT_RANDOM_FOOT, 0, 0}, {FORMAT_HTML, X | EXT_RANDOM_LABELS, 0, 0},
 	{FORMAT_EPUB, X, 0, 0}, {FORMAT_ODT, X, 0, 0}, {FORMAT_TEXTBUNDLE_COMPRESSED, X, 0, 0}, {FORMAT_ITMZ, X, 0, 0},
+	{FORMAT_HTML, X | EXT_CRITIC_ACCEPT, 0, 1, 1}, {FORMAT_LATEX, X | EXT_CRITIC_REJECT, 0, 1, 2}, {FORMAT_HTML, X, 0, 1, 3},
 };
+void mmd_critic_markup_accept(DString * d);
+void mmd_critic_markup_reject(DString * d);
+char * mmd_string_metadata_keys(char * source);
 #define NCOMBO (sizeof(combos)/sizeof(combos[0]))
 
 typedef struct { char * p; size_t len; } out_t;
@@ -54,7 +58,23 @@ static out_t * refs;       /* ndocs * NCOMBO */
 
 static out_t convert(uint32_t d, int c) {
 	out_t o = {NULL, 0};
-	DString * r = mmd_string_convert_to_data(docs[d].p, combos[c].ext, combos[c].fmt, combos[c].lang, NULL);
+	DString * r;
+	if (combos[c].pre == 3) {
+		char * keys = mmd_string_metadata_keys(docs[d].p);
+		o.len = keys ? strlen(keys) : 0;
+		o.p = malloc(o.len + 1);
+		if (keys) memcpy(o.p, keys, o.len);
+		free(keys);
+		return o;
+	}
+	if (combos[c].pre) {
+		DString * src = d_string_new(docs[d].p);
+		if (combos[c].pre == 1) mmd_critic_markup_accept(src); else mmd_critic_markup_reject(src);
+		r = mmd_d_string_convert_to_data(src, combos[c].ext, combos[c].fmt, combos[c].lang, NULL);
+		d_string_free(src, true);
+	} else {
+		r = mmd_string_convert_to_data(docs[d].p, combos[c].ext, combos[c].fmt, combos[c].lang, NULL);
+	}
 	if (r) {
 		o.len = r->currentStringLength;
 		o.p = malloc(o.len + 1);
@@ -64,7 +84,7 @@ static out_t convert(uint32_t d, int c) {
 	return o;
 }
 
-typedef struct { int id; uint64_t seed; long iters; long mism; long done; uint64_t * t0, * t1; } worker_t;
+typedef struct { int id; uint64_t seed; long iters; long mism; long done; uint64_t * t0, * t1; out_t * outs; uint32_t * dd; int * cc; } worker_t;
 static uint64_t now_ns(void) { struct timespec ts; clock_gettime(CLOCK_MONOTONIC, &ts); return (uint64_t) ts.tv_sec * 1000000000ull + ts.tv_nsec; }
 
 static pthread_barrier_t bar;
@@ -79,17 +99,7 @@ static void * worker(void * arg) {
 		w->t0[i] = now_ns();
 		out_t o = convert(d, c);
 		w->t1[i] = now_ns();
-		if (combos[c].compare) {
-			out_t * r = &refs[d * NCOMBO + c];
-			if (o.len != r->len || memcmp(o.p, r->p, o.len) != 0) {
-				size_t k = 0;
-				while (k < o.len && k < r->len && o.p[k] == r->p[k]) k++;
-				printf("MISMATCH thread=%d doc=%u combo=%d at=%zu len=%zu/%zu\n", w->id, d, c, k, o.len, r->len);
-				fflush(stdout);
-				w->mism++;
-			}
-		}
-		free(o.p);
+		w->outs[i] = o; w->dd[i] = d; w->cc[i] = c;
 		w->done++;
 	}
 	return NULL;
@@ -114,7 +124,6 @@ int main(int argc, char ** argv) {
 	}
 	fclose(f);
 	refs = calloc((size_t) ndocs * NCOMBO, sizeof(out_t));
-	for (uint32_t d = 0; d < ndocs; ++d) for (int c = 0; c < (int) NCOMBO; ++c) if (combos[c].compare) refs[d * NCOMBO + c] = convert(d, c);
 
 	pthread_t * th = calloc(nt, sizeof(pthread_t));
 	worker_t * ws = calloc(nt, sizeof(worker_t));
@@ -122,10 +131,27 @@ int main(int argc, char ** argv) {
 	for (int t = 0; t < nt; ++t) {
 		ws[t].id = t; ws[t].seed = seed * 1000003ull + t * 7919ull + 1; ws[t].iters = iters;
 		ws[t].t0 = calloc(iters, 8); ws[t].t1 = calloc(iters, 8);
+		ws[t].outs = calloc(iters, sizeof(out_t)); ws[t].dd = calloc(iters, 4); ws[t].cc = calloc(iters, sizeof(int));
 		pthread_create(&th[t], NULL, worker, &ws[t]);
 	}
 	long total = 0, mism = 0;
-	for (int t = 0; t < nt; ++t) { pthread_join(th[t], NULL); total += ws[t].done; mism += ws[t].mism; }
+	for (int t = 0; t < nt; ++t) { pthread_join(th[t], NULL); total += ws[t].done; }
+	/* the serial references are computed only now: nothing in the library has been touched before the threads started, so lazily
+	 * initialised state is first used concurrently (an earlier serial pass would hide a racy first use) */
+	in_worker = 0;
+	for (int t = 0; t < nt; ++t) for (long i = 0; i < ws[t].done; ++i) {
+			uint32_t d = ws[t].dd[i]; int c = ws[t].cc[i];
+			if (!combos[c].compare) continue;
+			out_t * r = &refs[d * NCOMBO + c];
+			if (!r->p) *r = convert(d, c);
+			out_t o = ws[t].outs[i];
+			if (o.len != r->len || memcmp(o.p, r->p, o.len) != 0) {
+				size_t k = 0;
+				while (k < o.len && k < r->len && o.p[k] == r->p[k]) k++;
+				printf("MISMATCH thread=%d doc=%u combo=%d at=%zu len=%zu/%zu\n", t, d, c, k, o.len, r->len);
+				mism++;
+			}
+		}
 	/* how many conversions overlapped in time with a conversion of another thread */
 	long overlapping = 0;
 	for (int t = 0; t < nt; ++t) for (long i = 0; i < iters; ++i) {
